@@ -1,7 +1,7 @@
 (* Observation commands of the name domain (C13).  Definitions only. *)
 From Coq Require Import List NArith Bool String.
 Import ListNotations.
-Require Import VParse VMeaning Names NamesX Show.
+Require Import VParse VMeaning Names NamesX NamesRegex Show.
 Open Scope N_scope.
 
 (* n.name s  ->  validate|normalized|canonical    validate = T when canonicalize_name(s, validate=True) returns (the same value), F when InvalidName.
@@ -13,7 +13,11 @@ Definition obs_name (s : list N) : list N :=
 (* n.lower s  ->  s.lower()   (ties the generated tables of NamesX to the interpreter) *)
 Definition obs_lower (s : list N) : list N := lower_full s.
 
+(* n.re s  ->  T/F|T/F : the transcribed patterns through the regex matcher: _validate_regex.match(s), _normalized_regex.match(s) *)
+Definition obs_re (s : list N) : list N := fields [show_bool (re_match validate_re s); show_bool (re_match normalized_re s)].
+
 Definition run_names (cmd : list N) (args : list (list N)) : option (list N) :=
   if seqb cmd (asc "n.name") then Some (obs_name (nth_str 0 args))
   else if seqb cmd (asc "n.lower") then Some (obs_lower (nth_str 0 args))
+  else if seqb cmd (asc "n.re") then Some (obs_re (nth_str 0 args))
   else None.
